@@ -551,48 +551,7 @@ func runC02(c *Check, a *Analysis) {
 	}
 
 	// ---- R-RECYCLE
-	c.Rule("R-RECYCLE", "PutCall(c) is dominated by a receive from c.Done (or is the select arm of that receive), or c was never registered on any path to it", 4)
-	for _, fn := range p.Fns {
-		for _, call := range callsIn(fn, "PutCall") {
-			in := call.(ssa.Instruction)
-			v := call.Common().Args[0]
-			ok, how := recvDominates(p, in, v)
-			if !ok {
-				// never registered on any feasible path
-				reg := false
-				eachInstr(fn, func(x ssa.Instruction) {
-					if mu, isM := x.(*ssa.MapUpdate); isM && isLoadOf(mu.Map, "Conn", "pending") && p.sameVar(mu.Value, v) && p.canReach(x, in, nil) {
-						reg = true
-					}
-					if cc, isC := x.(ssa.CallInstruction); isC && x != in {
-						if cal := cc.Common().StaticCallee(); cal != nil {
-							for j, a := range cc.Common().Args {
-								if comp.registers[cal][j] && p.sameVar(a, v) && p.canReach(x, in, nil) {
-									reg = true
-								}
-							}
-						}
-					}
-					if mc, isMC := x.(*ssa.MakeClosure); isMC {
-						for _, b := range mc.Bindings {
-							if p.sameVar(b, v) && closureRegisters(comp, mc.Fn.(*ssa.Function), p.localCell(b)) && p.canReach(x, in, nil) {
-								reg = true
-							}
-						}
-					}
-				})
-				if !reg {
-					ok, how = true, "never registered on any path"
-				}
-			}
-			det := ""
-			if !ok {
-				det = "PutCall recycles a call that may still be registered and has not been received from its Done channel: a late completion would land on a recycled object"
-			}
-			_ = how
-			c.Ob("R-RECYCLE", sc.key(fn, "PutCall"), p.InstrPos(in), ok, det)
-		}
-	}
+	ruleRecycle(c, a, comp, "R-RECYCLE")
 
 	// ---- R-NONBLOCK
 	c.Rule("R-NONBLOCK", "every send on a Call.Done channel is a non-blocking select (a full channel must not block the connection's reader)", 1)
@@ -719,4 +678,90 @@ func redefines(p *Prog, x ssa.Instruction, v ssa.Value) bool {
 		}
 	}
 	return false
+}
+
+// ruleRecycle (shared by C02 and C19): every point where a Call is returned to
+// the pool — PutCall directly or through a callee that recycles its parameter —
+// is dominated by a receive from that call's Done channel, or the call was
+// never registered on any path to it. Recycling through a parameter of an
+// internal function is judged at the callers.
+func ruleRecycle(c *Check, a *Analysis, comp *completion, rule string) {
+	p := c.P
+	c.Rule(rule, "a Call is recycled (PutCall, directly or through a callee that recycles its parameter) only after a receive from its Done channel (or as the select arm of that receive), or when it was never registered on any path", 4)
+	rel := a.Releases()
+	sc := siteCounter{}
+	for _, fn := range p.Fns {
+		for _, rs := range rel.sitesIn(fn) {
+			if rs.Kind.Name != resCall.Name {
+				continue
+			}
+			in := rs.Instr
+			v := rs.Res
+			if fname(fn) == "PutCall" {
+				continue // the pool primitive itself
+			}
+			key := p.varKeyOfBinding(v)
+			if fn.Parent() == nil {
+				if i := p.paramOfVar(fn, key); i >= 0 && !externallyCallable(fn) && len(p.Callers(fn)) > 0 {
+					// judged at the callers through the release summary, unless it is
+					// registered in this very function
+					regHere := false
+					eachInstr(fn, func(x ssa.Instruction) {
+						if mu, isM := x.(*ssa.MapUpdate); isM && isLoadOf(mu.Map, "Conn", "pending") && p.sameVar(mu.Value, v) && p.canReach(x, in, nil) {
+							regHere = true
+						}
+					})
+					if !regHere {
+						// still an obligation when no caller can see it (guarded summaries)
+						if len(rs.Guards) == 0 && rs.Via == "" {
+							summarised := false
+							for _, s := range rel.sum[fn] {
+								if s.Param == i && s.Kind.Name == resCall.Name && len(s.Guards) == 0 {
+									summarised = true
+								}
+							}
+							if summarised {
+								continue
+							}
+						}
+					}
+				}
+			}
+			ok, _ := recvDominates(p, in, v)
+			if !ok {
+				reg := false
+				eachInstr(fn, func(x ssa.Instruction) {
+					if mu, isM := x.(*ssa.MapUpdate); isM && isLoadOf(mu.Map, "Conn", "pending") && p.sameVar(mu.Value, v) && p.canReach(x, in, nil) {
+						reg = true
+					}
+					if cc, isC := x.(ssa.CallInstruction); isC && x != in {
+						if cal := cc.Common().StaticCallee(); cal != nil {
+							for j, a2 := range cc.Common().Args {
+								if comp.registers[cal][j] && p.sameVar(a2, v) && p.canReach(x, in, nil) {
+									reg = true
+								}
+							}
+						}
+					}
+					if mc, isMC := x.(*ssa.MakeClosure); isMC {
+						for _, b := range mc.Bindings {
+							if p.sameVar(b, v) && closureRegisters(comp, mc.Fn.(*ssa.Function), p.localCell(b)) && p.canReach(x, in, nil) {
+								reg = true
+							}
+						}
+					}
+				})
+				ok = !reg
+			}
+			what := "PutCall"
+			if rs.Via != "" {
+				what = "recycle via " + rs.Via
+			}
+			det := ""
+			if !ok {
+				det = what + " recycles a call that may still be registered and has not been received from its Done channel: a late completion (or a response still being processed) lands on a recycled object that another caller may own"
+			}
+			c.Ob(rule, sc.key(fn, what), p.InstrPos(in), ok, det)
+		}
+	}
 }
